@@ -25,7 +25,7 @@ ASSUMPTIONS = [
     "qha and scipy see the re-presented arrays too; their own order-(in)dependence is part of what is observed, not modelled",
 ]
 RTOL = 1e-8
-TRANSFORMS = ["q-perm", "mode-perm", "w-scale", "col-perm", "col-upper", "row-perm", "vol-rev", "vol-shuffle"]
+TRANSFORMS = ["q-perm", "mode-perm", "w-scale", "w-scale-2", "col-perm", "col-upper", "row-perm", "vol-rev", "vol-shuffle"]
 
 
 def transform(ds: synth.DataSet, name: str, rng) -> tuple:
@@ -44,8 +44,9 @@ def transform(ds: synth.DataSet, name: str, rng) -> tuple:
             else:
                 p = rng.permutation(d.np_)
             d.freqs[:, q, :] = d.freqs[:, q, p]
-    elif name == "w-scale":
-        d.weights = d.weights * float(rng.choice([0.25, 3.0, 16.0, 1.0 / 7.0]))
+    elif name in ("w-scale", "w-scale-2"):
+        # "all positive weight scale factors": ordinary and extreme ones (weights only matter up to a common factor)
+        d.weights = d.weights * float(rng.choice([0.25, 16.0, 1.0 / 7.0, 2e-7, 1e-9, 1e6]))
     elif name == "col-perm":
         p = rng.permutation(len(d.static_keys))
         d.static_keys = [d.static_keys[i] for i in p]; d.static_table = d.static_table[:, p]
